@@ -720,6 +720,15 @@ func (e *c04Env) cmdTree() *brigodier.RootCommandNode {
 			if len(children) == 0 && len(lits) > 0 && s.chance(1, 4) {
 				b.Redirect(lits[s.n(len(lits))])
 				e.label("brigadier-redirect")
+			} else if len(children) == 0 && s.chance(1, 8) {
+				// redirect to a node that is nobody's child: it is reachable only
+				// through this redirect (the flat wire node list permits that)
+				d := brigodier.Literal(name())
+				if s.flag() {
+					d.Executes(c04Cmd)
+				}
+				b.Redirect(d.Build())
+				e.label("brigadier-redirect-to-detached-node")
 			}
 			n := b.Build()
 			for _, c := range children {
